@@ -32,7 +32,7 @@ def meek_equality_snapshot(rule, s):
 class C02(Check):
     pid = 'C02'
     level = 'model_checking'
-    rule = ('C01 case space with ballot snapshots kept, plus weighted W(3,3,3,{1,2,3,5,8}) profiles for the Gregory rules under the '
+    rule = ('C01 case space with ballot snapshots kept, plus weighted W(3,3,3,{2,3,5}) (thorough {1,2,3,5,8}) profiles for the Gregory rules under the '
             'arithmetic menu (long fractional transfer values); equal-rank profiles only for meek/warren (4-candidate QW(4) family; thorough also Q(3,<=4)). '
             'states = distinct (method, tallies, nt/residual) snapshots, transitions = distinct consecutive pairs, '
             'traces_validated = real counts whose every snapshot satisfied the conservation model. '
@@ -47,7 +47,7 @@ class C02(Check):
         yield from families.seats_ties(4, spaces.QW(4), seats=(1, 2), ties='id', cfgs=mw if tier == 'quick' else mw + configs.meek_menu()[::5])
         greg = [{'rule': r} for r in configs.GREGORY] + configs.wigm_menu(full=False)
         if tier == 'quick':
-            yield from families.seats_ties(3, spaces.W(3, 3, 3, (1, 2, 3, 5, 8)), seats=(1, 2), ties='id', cfgs=greg[:7] + greg[7::4])
+            yield from families.seats_ties(3, spaces.W(3, 3, 3, (2, 3, 5)), seats=(1, 2), ties='id', cfgs=greg[:7] + greg[7::4])
         else:
             yield from families.seats_ties(3, spaces.W(3, 3, 3, (1, 2, 3, 5, 8)), seats=(1, 2), ties='id', cfgs=greg)
 
